@@ -22,6 +22,7 @@ macro_rules! with_check {
             "C07" => $f::<props::core::C07>($($arg),*),
             "C08" => $f::<props::core::C08>($($arg),*),
             "C09" => $f::<props::c09::C09>($($arg),*),
+            "C15" => $f::<props::c15::C15>($($arg),*),
             "C16" => $f::<props::c16::C16>($($arg),*),
             "C17" => $f::<props::c17::C17>($($arg),*),
             "C18" => $f::<props::core::C18>($($arg),*),
@@ -118,6 +119,7 @@ fn shrink<C: Check>(file: &Path) -> i32 {
 fn orchestrate<C: Check>(tier: Tier) -> i32 {
     let t0 = Instant::now();
     let seed = seed();
+    nomt_verif::hist::sweep_stale_scratch();
     let exe = std::env::current_exe().unwrap();
     let mut violations: Vec<(String, String)> = Vec::new();
     let mut known_lines: Vec<String> = Vec::new();
